@@ -147,8 +147,8 @@ class Checker:
         return obs
 
     def _compare(self, ops, exp, o, meta):
-        if o == ["CRASH"]:
-            self.violation(ops, 0, "no process crash", "CRASH", meta)
+        if o == ["CRASH"] or o == ["HANG"]:
+            self.violation(ops, 0, "no process crash, no hang", o[0], meta)
             return
         if len(o) != len(ops):
             raise MachineryError("observation count mismatch for %s -> %s" % (ops, o))
@@ -176,7 +176,7 @@ class Checker:
                     o2 = fresh.run(";".join(ops))
                 finally:
                     fresh.close()
-                if o2 != ["CRASH"] and (step >= len(o2) or o2[step] != observed):
+                if o2 not in (["CRASH"], ["HANG"]) and (step >= len(o2) or o2[step] != observed):
                     raise MachineryError("violation did not reproduce in a fresh process: %s" % ops)
             st.violations.append(v)
 
